@@ -1,8 +1,233 @@
-/- line-protocol handlers for the C11 models (stub: nothing modelled yet) -/
+/- line-protocol handlers for the C11 models (Model/Tent, Normalize, Ivs, Metrics) -/
 import FontVerif.Model.Base
+import FontVerif.Model.Fixed
+import FontVerif.Model.Tent
+import FontVerif.Model.Normalize
+import FontVerif.Model.Ivs
+import FontVerif.Model.Metrics
 namespace FontVerif.Drv.C11
 open FontVerif
 
-def handle (_cmd : String) (_args : List String) : Option String := none
+/-! small token-stream parser (every structure is length-prefixed) -/
+
+abbrev P (α : Type) := List Int → Option (α × List Int)
+
+def pInt : P Int
+  | x :: r => some (x, r)
+  | [] => none
+
+def pNat : P Nat
+  | x :: r => if x < 0 then none else some (x.toNat, r)
+  | [] => none
+
+def pMany {α} (p : P α) : Nat → P (List α)
+  | 0, r => some ([], r)
+  | n + 1, r => match p r with
+    | none => none
+    | some (a, r) => match pMany p n r with
+      | none => none
+      | some (as, r) => some (a :: as, r)
+
+/-- `<k> item*k` -/
+def pList {α} (p : P α) : P (List α) := fun r =>
+  match pNat r with
+  | none => none
+  | some (k, r) => pMany p k r
+
+def pPairNI : P (Nat × Int) := fun r =>
+  match pNat r with
+  | none => none
+  | some (a, r) => match pInt r with
+    | none => none
+    | some (b, r) => some ((a, b), r)
+
+def pPairII : P (Int × Int) := fun r =>
+  match pInt r with
+  | none => none
+  | some (a, r) => match pInt r with
+    | none => none
+    | some (b, r) => some ((a, b), r)
+
+def pTriple : P (Int × Int × Int) := fun r =>
+  match r with
+  | a :: b :: c :: r => some ((a, b, c), r)
+  | _ => none
+
+/-- member of an encoding: `<id> <k> (region delta)*k` -/
+def pMember : P (List (Nat × Int) × Nat) := fun r =>
+  match pNat r with
+  | none => none
+  | some (id, r) => match pList pPairNI r with
+    | none => none
+    | some (ds, r) => some ((ds, id), r)
+
+def showSub : Option Tent.SubTable → String
+  | none => "null"
+  | some st => s!"{st.itemCount},{st.wordDeltaCount},{joinNats st.regionIndexes},{toHex st.data}"
+
+def showBuilt (b : Ivs.Built) : String :=
+  let subs := ";".intercalate (b.subtables.map showSub)
+  let remap := " ".intercalate (b.remap.map fun t => s!"{t.1}:{t.2.1}:{t.2.2}")
+  s!"subs={subs}|remap={remap}|used={joinNats b.usedRegions}"
+
+def showDelta : Tent.DeltaResult → String
+  | .ok v => toString v
+  | .err => "err"
+
+/-- a store: `<nRegions> { <nAxes> (s p e)* }* <nSub> { 0 | 1 itemCount wdc <k> ri* <hex-as-bytes k> b* }*`
+(bytes as decimal ints, length-prefixed) -/
+def pSub : P (Option Tent.SubTable) := fun r =>
+  match pNat r with
+  | some (0, r) => some (none, r)
+  | some (1, r) =>
+    match pNat r with
+    | none => none
+    | some (ic, r) => match pNat r with
+      | none => none
+      | some (wdc, r) => match pList pNat r with
+        | none => none
+        | some (ris, r) => match pList pNat r with
+          | none => none
+          | some (bytes, r) =>
+            some (some { itemCount := ic, wordDeltaCount := wdc, regionIndexes := ris, data := bytes }, r)
+  | _ => none
+
+def optNat : Option Int → String
+  | none => "none"
+  | some v => toString v
+
+def handleInts (cmd : String) (xs : List Int) : Option String :=
+  match cmd, xs with
+  | "ivs.forval", [v] => some (toString (Ivs.forVal v))
+  | "ivs.shape", _ =>
+    match pNat xs with
+    | some (n, r) => match pList pPairNI r with
+      | some (ds, []) => some (joinNats (Ivs.reuse ds n))
+      | _ => none
+    | none => none
+  | "ivs.merge", _ =>
+    match pList pNat xs with
+    | some (a, r) => match pList pNat r with
+      | some (b, []) => some (s!"{joinNats (Ivs.merge a b)} | {Ivs.canCover a b}")
+      | _ => none
+    | none => none
+  | "ivs.regionmap", _ =>
+    match pList pNat xs with
+    | some (s, []) => some (s!"{joinNats (Ivs.indices s)} | {Ivs.wordDeltaCount s} | {Ivs.nActive s} {Ivs.nLong s} {Ivs.longWords s} | {Ivs.rowCost s}")
+    | _ => none
+  | "ivs.encrow", _ =>
+    -- shape, dense row
+    match pList pNat xs with
+    | some (s, r) => match pList pInt r with
+      | some (row, []) => some (toHex (Ivs.encodeRow s row))
+      | _ => none
+    | none => none
+  | "ivs.cmp", _ =>
+    match pList pPairNI xs with
+    | some (a, r) => match pList pPairNI r with
+      | some (b, []) => some (match Ivs.deltaSetCmp a b with | .lt => "lt" | .eq => "eq" | .gt => "gt")
+      | _ => none
+    | none => none
+  | "ivs.norm", _ =>
+    match pList pPairNI xs with
+    | some (a, []) => some (" ".intercalate ((Ivs.normalizeDeltaSet a).map fun p => s!"{p.1}:{p.2}") |> fun s => if s.isEmpty then "-" else s)
+    | _ => none
+  | "ivs.build", _ =>
+    -- nRegions, groups: <g> { <m> member*m }*g
+    match pNat xs with
+    | some (n, r) => match pList (pList pMember) r with
+      | some (groups, []) => some (showBuilt (Ivs.buildOptimized n groups))
+      | _ => none
+    | none => none
+  | "ivs.direct", _ =>
+    match pNat xs with
+    | some (n, r) => match pList (pList pPairNI) r with
+      | some (sets, []) => some (showBuilt (Ivs.buildDirect n sets))
+      | _ => none
+    | none => none
+  | "ivs.deltaset", _ =>
+    -- wdc regionCount inner bytes
+    match xs with
+    | wdc :: rc :: inner :: r =>
+      if wdc < 0 ∨ rc < 0 ∨ inner < 0 then none else
+      match pList pNat r with
+      | some (bytes, []) => some (joinInts (Tent.deltaSet wdc.toNat rc.toNat bytes inner.toNat))
+      | _ => none
+    | _ => none
+  | "ivs.rowlen", [wdc, rc] =>
+    if wdc < 0 ∨ rc < 0 then none else some (toString (Tent.deltaRowLen wdc.toNat rc.toNat))
+  | "tent.scalar", _ =>
+    match pList pTriple xs with
+    | some (axes, r) => match pList pInt r with
+      | some (coords, []) => some (toString (Tent.computeScalar axes coords))
+      | _ => none
+    | none => none
+  | "tent.round", [acc] => some (toString (Tent.roundAccum acc))
+  | "ivs.delta", _ =>
+    match pList (pList pTriple) xs with
+    | some (regions, r) => match pList pSub r with
+      | some (subs, r) => match r with
+        | outer :: inner :: r =>
+          if outer < 0 ∨ inner < 0 then none else
+          match pList pInt r with
+          | some (coords, []) => some (showDelta (Tent.computeDelta regions subs outer.toNat inner.toNat coords))
+          | _ => none
+        | _ => none
+      | none => none
+    | none => none
+  | "dsim.get", _ =>
+    match xs with
+    | fmt :: cnt :: idx :: r =>
+      if fmt < 0 ∨ cnt < 0 ∨ idx < 0 then none else
+      match pList pNat r with
+      | some (bytes, []) => some (match Tent.dsimGet fmt.toNat cnt.toNat bytes idx.toNat with
+          | some (o, i) => s!"{o} {i}"
+          | none => "err")
+      | _ => none
+    | _ => none
+  | "dsim.pack", _ =>
+    match pList pNat xs with
+    | some (m, []) => let p := Ivs.packMap m; some s!"{p.1} {p.2.1} {toHex p.2.2}"
+    | _ => none
+  | "norm.axis", [mn, df, mx, v] => some (toString (Normalize.normalize mn df mx v))
+  | "avar.apply", _ =>
+    match pList pPairII xs with
+    | some (maps, [c]) => some (toString (Normalize.avarApply maps c))
+    | _ => none
+  | "norm.user", _ =>
+    -- min def max value hasMap [maps]
+    match xs with
+    | mn :: df :: mx :: v :: 0 :: [] => some (toString (Normalize.userToNormalized mn df mx none v))
+    | mn :: df :: mx :: v :: 1 :: r =>
+      match pList pPairII r with
+      | some (maps, []) => some (toString (Normalize.userToNormalized mn df mx (some maps) v))
+      | _ => none
+    | _ => none
+  | "met.adv", _ =>
+    -- glyphCount gid hasAdvDelta advDelta hasLsbDelta lsbDelta <k> (adv lsb)* <k> lsb*
+    -- response: advance and lsb after the unscaled FixedScaleFactor (0x10000 * 64), as 16.16 bits
+    match xs with
+    | gc :: gid :: ha :: da :: hl :: dl :: r =>
+      if gc < 0 ∨ gid < 0 then none else
+      match pList pPairII r with
+      | some (hm, r) => match pList pInt r with
+        | some (lsbs, []) =>
+          let adv := (Metrics.advanceUnits gc.toNat hm gid.toNat (if ha = 1 then some da else none)).map (Metrics.applyScale 4194304)
+          let lsb := (Metrics.lsbUnits gc.toNat hm lsbs gid.toNat (if hl = 1 then some dl else none)).map (Metrics.applyScale 4194304)
+          some s!"{optNat adv} {optNat lsb}"
+        | _ => none
+      | none => none
+    | _ => none
+  | "met.scaled", [ppem64, upem, base, delta] =>
+    -- Size::fixed_linear_scale: Fixed(ppem*64) / Fixed(upem); then apply to base + delta
+    let scale := if upem > 0 then Fixed.div ppem64 upem else 4194304
+    some (toString (Metrics.applyScale scale (base + Metrics.deltaInt delta)))
+  | "met.scale", [sc, v] => some (toString (Metrics.applyScale sc v))
+  | _, _ => none
+
+def handle (cmd : String) (args : List String) : Option String :=
+  match parseInts? args with
+  | none => none
+  | some xs => handleInts cmd xs
 
 end FontVerif.Drv.C11
